@@ -11,7 +11,7 @@ use mdk_sqlite_storage::MdkSqliteStorage;
 use mdk_sqlite_storage::verif::{TickAction, set_tick_hook};
 use serde_json::json;
 
-use super::c06::{ChildEnd, wait_timeout};
+use super::c06::{ChildEnd, wait_capture, wait_timeout};
 use crate::report::{Ctx, Floor, Outcome, finish};
 use crate::rng::Rng;
 use crate::vstore::stress::*;
@@ -135,18 +135,14 @@ fn tsan_pass(ctx: &Ctx, out: &mut Outcome) {
             .stdout(std::process::Stdio::piped())
             .stderr(std::process::Stdio::piped())
             .spawn();
-        let Ok(mut child) = child else {
+        let Ok(child) = child else {
             out.inconclusive.push("could not start the TSan binary".into());
             continue;
         };
-        let mut stdout = String::new();
-        {
-            use std::io::Read;
-            if let Some(mut so) = child.stdout.take() {
-                let _ = so.read_to_string(&mut stdout);
-            }
-        }
-        let st = wait_timeout(child, Duration::from_secs(ctx.tier.pick(600, 3000)));
+        let (st, stdout) = match wait_capture(child, Duration::from_secs(ctx.tier.pick(600, 3000))) {
+            Ok((e, o, _)) => (Ok(e), o),
+            Err(e) => (Err(e), String::new()),
+        };
         match st {
             Ok(ChildEnd::Exited(0)) | Ok(ChildEnd::Exited(66)) => {}
             Ok(ChildEnd::TimedOut) => {
@@ -209,7 +205,7 @@ fn miri_pass(ctx: &Ctx, out: &mut Outcome) {
     let hd = harness_dir(ctx);
     let seeds: Vec<u64> = (0..ctx.tier.pick(2, 16)).map(|k| ctx.seed.wrapping_mul(31).wrapping_add(k)).collect();
     // build once (sequentially), then run the seeds in parallel
-    let run_one = |seed: u64| -> (u64, Result<ChildEnd, std::io::Error>, String) {
+    let run_one = |seed: u64| -> (u64, Result<ChildEnd, std::io::Error>, String, String) {
         let child = std::process::Command::new("cargo")
             .args(["+nightly", "miri", "run", "--no-default-features", "--target-dir", "target-miri", "--offline", "--", "C19", "--seed", &seed.to_string()])
             .current_dir(&hd)
@@ -218,24 +214,20 @@ fn miri_pass(ctx: &Ctx, out: &mut Outcome) {
             .stdout(std::process::Stdio::piped())
             .stderr(std::process::Stdio::piped())
             .spawn();
-        let Ok(mut child) = child else { return (seed, Err(std::io::Error::other("spawn")), String::new()) };
-        let mut stdout = String::new();
-        {
-            use std::io::Read;
-            if let Some(mut so) = child.stdout.take() {
-                let _ = so.read_to_string(&mut stdout);
-            }
+        let Ok(child) = child else { return (seed, Err(std::io::Error::other("spawn")), String::new(), String::new()) };
+        match wait_capture(child, Duration::from_secs(1500)) {
+            Ok((e, o, err)) => (seed, Ok(e), o, err),
+            Err(e) => (seed, Err(e), String::new(), String::new()),
         }
-        (seed, wait_timeout(child, Duration::from_secs(1500)), stdout)
     };
     let first = run_one(seeds[0]);
     let mut results = vec![first];
-    let rest: Vec<(u64, Result<ChildEnd, std::io::Error>, String)> = std::thread::scope(|sc| {
+    let rest: Vec<(u64, Result<ChildEnd, std::io::Error>, String, String)> = std::thread::scope(|sc| {
         let hs: Vec<_> = seeds[1..].iter().map(|s| sc.spawn(move || run_one(*s))).collect();
         hs.into_iter().filter_map(|h| h.join().ok()).collect()
     });
     results.extend(rest);
-    for (seed, st, stdout) in results {
+    for (seed, st, stdout, stderr) in results {
         match st {
             Ok(ChildEnd::Exited(0)) => {
                 out.count("miri_runs_clean");
@@ -251,9 +243,19 @@ fn miri_pass(ctx: &Ctx, out: &mut Outcome) {
                 let viol: Vec<&str> = stdout.lines().filter(|l| l.starts_with("MIRI-VIOLATION") || l.starts_with("MIRI-DIFF")).collect();
                 if !viol.is_empty() {
                     out.violation(format!("C19|under-miri|{}", crate::util::first_words(viol[0], 3)), format!("seed {seed}: {}", viol[0]), json!({"miri_seed": seed}));
+                } else if let Some(l) = stderr.lines().find(|l| l.contains("Undefined Behavior") || l.contains("Data race detected") || l.contains("deadlock")) {
+                    // Miri itself stopped the program
+                    let kind = if l.contains("Data race") { "data-race" } else if l.contains("deadlock") { "deadlock" } else { "undefined-behaviour" };
+                    let at = stderr.lines().find(|x| x.contains("-->") && x.contains("mdk-")).unwrap_or("").trim().to_string();
+                    out.violation(format!("C19|miri-error|{kind}"), format!("cargo miri run (seed {seed}): {}\n{at}\nre-run: cd /verif/harness && MIRIFLAGS='-Zmiri-disable-isolation -Zmiri-permissive-provenance' cargo +nightly miri run --no-default-features --target-dir target-miri -- C19 --seed {seed}", l.trim()), json!({"miri_seed": seed, "stderr_tail": crate::util::tail(&stderr, 3000)}));
+                } else if stderr.contains("unsupported operation") || stderr.contains("could not compile") || stderr.contains("error[E") {
+                    let why = if stderr.contains("unsupported operation") { "Miri met an operation it does not support" } else { "the Miri build of the harness failed" };
+                    out.inconclusive.push(format!("Miri seed {seed}: {why} (exit {code})"));
+                } else if stderr.contains("panicked at") {
+                    let l = stderr.lines().find(|l| l.contains("panicked at")).unwrap_or("");
+                    out.violation("C19|miri-error|panic".to_string(), format!("cargo miri run (seed {seed}) panicked: {}", crate::util::short(l, 300)), json!({"miri_seed": seed}));
                 } else {
-                    // exit code 1 without our own lines: Miri itself stopped the program (UB / data race)
-                    out.violation(format!("C19|miri-error|exit={code}"), format!("cargo miri run (seed {seed}) exited with {code} without a harness verdict: undefined behaviour, data race or unsupported operation; re-run `cd /verif/harness && MIRIFLAGS='-Zmiri-disable-isolation -Zmiri-permissive-provenance' cargo +nightly miri run --no-default-features --target-dir target-miri -- C19 --seed {seed}`"), json!({"miri_seed": seed}));
+                    out.inconclusive.push(format!("Miri seed {seed}: exit {code} without a harness verdict or a Miri diagnosis: {}", crate::util::tail(&stderr, 400)));
                 }
             }
             Ok(ChildEnd::TimedOut) => out.inconclusive.push(format!("Miri seed {seed}: watchdog fired")),
